@@ -99,6 +99,18 @@ def handle : List String → String
       | .ok as => "ok " ++ ",".intercalate ((canon as).map showUAddr)
       | .error e => e.str
     | _, _, _, _, _ => "bad-op"
+  | ["fp", ovs, ove, calls, dst, proto, pld, q] =>
+    -- the same through the fast path: `resolveInbound` folds the three destination-address
+    -- refusals into one SCMP parameter problem
+    match mkCfg ovs ove calls, parseDst dst, proto.toNat?, unhex pld, parseQuote q with
+    | some c, some d, some pr, some pl, some q =>
+      match resolveLocalDst c d pr pl q with
+      | .ok as => "ok " ++ ",".intercalate ((canon as).map showUAddr)
+      | .error .dstAddr => "e:dstparam"
+      | .error .v4mapped => "e:dstparam"
+      | .error .unspec => "e:dstparam"
+      | .error e => e.str
+    | _, _, _, _, _ => "bad-op"
   | ["pl", site, open_, b, r, s] => handlePlumb site open_ b r s
   | ["so", r, s] =>
     -- what `initConnUDP` asks the kernel for, given `conn.Config{ReceiveBufferSize: r, SendBufferSize: s}`
